@@ -54,6 +54,7 @@ type c15wInbound struct {
 	Topic string `json:"topic"`
 	QoS   int    `json:"qos"`
 	ID    int    `json:"id"`
+	Dup   bool   `json:"dup,omitempty"` // DUP flag of the PUBLISH
 }
 
 type c15wInput struct {
@@ -61,8 +62,8 @@ type c15wInput struct {
 	Msgs     []c15wMsg     `json:"msgs"`
 	Inbound  []c15wInbound `json:"inbound"`
 	Burst    bool          `json:"burst,omitempty"` // each client writes all its PUBLISH packets in one TCP write
-	Limit    int           `json:"limit"`     // ClientPublishLimit.RequestRate per 1000 s (0 = no limiter)
-	WindowMs int           `json:"window_ms"` // observation time after the last injection
+	Limit    int           `json:"limit"`           // ClientPublishLimit.RequestRate per 1000 s (0 = no limiter)
+	WindowMs int           `json:"window_ms"`       // observation time after the last injection
 }
 
 type c15wPipe struct {
@@ -73,13 +74,13 @@ type c15wPipe struct {
 }
 
 type c15wObs struct {
-	HTTP    []int               `json:"http"`
+	HTTP []int `json:"http"`
 	// client -> arrival order of PUBLISH packets "id:qos:payload" and of the markers "!ack:<id>" (the broker has
 	// provably processed our PUBACK for <id>) and "!barrier" (PINGRESP of a barrier PINGREQ)
 	Rx      map[string][]string `json:"rx"`
-	Canary  int                 `json:"canary"` // ticks of the in-process 200 ms canary during the retransmission watch
-	Pubacks map[string][]int    `json:"pubacks"` // client -> ids of PUBACKs received
-	Pipe    []c15wPipe          `json:"pipe"`    // calls seen by the Publish pipeline
+	Canary  int                 `json:"canary"`    // ticks of the in-process 200 ms canary during the retransmission watch
+	Pubacks map[string][]int    `json:"pubacks"`   // client -> ids of PUBACKs received
+	Pipe    []c15wPipe          `json:"pipe"`      // calls seen by the Publish pipeline
 	Waited  int                 `json:"waited_ms"` // how long the harness observed after the last injection
 	Err     string              `json:"err,omitempty"`
 }
@@ -392,6 +393,7 @@ func c15wExec(raw json.RawMessage) interface{} {
 			p.TopicName = ib.Topic
 			p.Qos = byte(ib.QoS)
 			p.MessageID = uint16(ib.ID)
+			p.Dup = ib.Dup
 			p.Payload = []byte("up")
 			if in.Burst {
 				p.Write(&burst)
@@ -526,9 +528,20 @@ func c15wGen(r *verifh.Rand, i int) interface{} {
 		in.Limit = r.PickInt(1, 2, 3)
 	}
 	ni := r.Range(0, 5)
+	// packet-id discipline: arbitrary ids, always id 1 (in-flight window of 1), or alternating 1, 2 — the
+	// latter two from ONE client, with DUP set on some packets (a client that retransmits / re-uses ids)
+	mode := r.Intn(3)
+	one := fmt.Sprintf("w%d", r.Intn(n))
 	for k := 0; k < ni; k++ {
-		in.Inbound = append(in.Inbound, c15wInbound{C: fmt.Sprintf("w%d", r.Intn(n)), Topic: r.Pick("up/x", "up/y", "drop/x"),
-			QoS: r.PickInt(0, 1, 1, 1), ID: r.PickInt(1, 2, 7, 100, 65535, 0)})
+		ib := c15wInbound{C: fmt.Sprintf("w%d", r.Intn(n)), Topic: r.Pick("up/x", "up/y", "drop/x"),
+			QoS: r.PickInt(0, 1, 1, 1), ID: r.PickInt(1, 2, 7, 100, 65535, 0)}
+		switch mode {
+		case 1:
+			ib.C, ib.ID, ib.QoS, ib.Dup = one, 1, 1, r.Bool(1, 2)
+		case 2:
+			ib.C, ib.ID, ib.QoS, ib.Dup = one, 1+k%2, 1, r.Bool(1, 2)
+		}
+		in.Inbound = append(in.Inbound, ib)
 	}
 	return in
 }
